@@ -13,3 +13,4 @@ open Emboss.View
 #print axioms C01_complete_fields_identical_partial
 #print axioms C01_sizeCovers_of_plain
 #print axioms C01_ok_switch_eq_naive
+#print axioms C01_locality_partial
